@@ -60,20 +60,22 @@ theorem firstEOF_spec (input : List Nat) (tok : Nat × Nat) (ntok : Nat) :
     firstEOF input tok ntok < input.length + 2 ∧
     (lookAhead input tok ntok (firstEOF input tok ntok)).2 = 1 ∧
     ∀ i, i < firstEOF input tok ntok → (lookAhead input tok ntok i).2 ≠ 1 := by
-  have hlt : firstEOF input tok ntok < (lookAheads input tok ntok).length := by
-    unfold firstEOF
+  have hlt : List.findIdx (fun t => t.2 == 1) (lookAheads input tok ntok) <
+      (lookAheads input tok ntok).length := by
     rw [List.findIdx_lt_length]
     refine ⟨lookAhead input tok ntok (input.length + 1), ?_, ?_⟩
     · simp only [lookAheads, List.mem_map, List.mem_range]
       exact ⟨input.length + 1, by omega, rfl⟩
     · simp only [lookAhead, beq_iff_eq]
       exact scanTok_snd_of_le (by omega)
-  refine ⟨by simpa [lookAheads_length] using hlt, ?_, ?_⟩
+  refine ⟨by rw [lookAheads_length] at hlt; exact hlt, ?_, ?_⟩
   · have := List.findIdx_getElem (w := hlt)
+    unfold firstEOF
     simp only [lookAheads_getElem, beq_iff_eq] at this
     exact this
   · intro i hi
-    have := List.not_of_lt_findIdx (show i < List.findIdx _ (lookAheads input tok ntok) from hi)
+    unfold firstEOF at hi
+    have := List.not_of_lt_findIdx hi
     simp only [lookAheads_getElem, beq_eq_false_iff_ne] at this
     exact this
 
@@ -164,5 +166,472 @@ theorem attrToks_sublist_of_mem {a : Attr} {l : List Attr} (h : a ∈ l) :
     rcases List.mem_cons.mp h with rfl | h
     · exact List.sublist_append_left _ _
     · exact (ih h).trans (List.sublist_append_right _ _)
+
+/-! ### §2 the code's helpers meet the specification -/
+
+theorem firstRecovery_eq (T : PTables) (l : List Nat) (k : Nat) :
+    firstRecovery T l k = (topRecovery T l).map (· + k) := by
+  induction l generalizing k with
+  | nil => rfl
+  | cons s rest ih =>
+    cases rest with
+    | nil =>
+      simp only [firstRecovery, topRecovery, List.findIdx?_cons, List.findIdx?_nil, Option.map_none]
+      split <;> simp
+    | cons s2 rest =>
+      simp only [firstRecovery, ih, topRecovery]
+      rw [List.findIdx?_cons (x := s)]
+      split
+      · simp
+      · simp only [Option.map_map]
+        congr 1
+        funext i
+        simp only [Function.comp]
+        omega
+
+theorem topRecovery_some {T : PTables} {l : List Nat} {k : Nat} (h : topRecovery T l = some k) :
+    ∃ r rest, l.drop k = r :: rest ∧ T.canRecover[r]?.getD false = true ∧
+      ∀ s ∈ l.take k, T.canRecover[s]?.getD false = false := by
+  unfold topRecovery at h
+  obtain ⟨hlt, hp, hnp⟩ := List.findIdx?_eq_some_iff_getElem.mp h
+  refine ⟨l[k], l.drop (k + 1), List.drop_eq_getElem_cons hlt, hp, ?_⟩
+  intro s hs
+  obtain ⟨i, hi, rfl⟩ := List.getElem_of_mem hs
+  rw [List.getElem_take]
+  have := hnp i (by simp at hi; omega)
+  simpa using this
+
+theorem topRecovery_none {T : PTables} {l : List Nat} (h : topRecovery T l = none) :
+    ∀ s ∈ l, T.canRecover[s]?.getD false = false :=
+  List.findIdx?_eq_none_iff.mp h
+
+/-- the skip loop, started with enough fuel, stops at token number `j` of the look-ahead stream:
+    no earlier token is end of input, none of the tokens `1 … j-1` has an action; it reports
+    "recovered" iff it stopped because token `j ≥ 1` has an action, otherwise token `j` is end
+    of input -/
+theorem skipLoop_spec (T : PTables) (input : List Nat) (top : Nat) :
+    ∀ (fuel : Nat) (nt : Nat × Nat) (ntok : Nat),
+      input.length + 1 ≤ fuel + ntok → (0 < fuel ∨ nt.2 = 1) →
+      ∃ j, (skipLoop T input top fuel nt ntok).2.1 = lookAhead input nt ntok j ∧
+        (skipLoop T input top fuel nt ntok).2.2 = ntok + j ∧
+        (∀ i, i < j → (lookAhead input nt ntok i).2 ≠ 1) ∧
+        (∀ i, 0 < i → i < j → T.act top (lookAhead input nt ntok i).2 = none) ∧
+        (if (skipLoop T input top fuel nt ntok).1 = true then
+            0 < j ∧ (T.act top (lookAhead input nt ntok j).2).isSome = true
+         else (lookAhead input nt ntok j).2 = 1 ∧
+            (0 < j → T.act top (lookAhead input nt ntok j).2 = none)) := by
+  intro fuel
+  induction fuel with
+  | zero =>
+    intro nt ntok _ h2
+    refine ⟨0, rfl, rfl, by omega, by omega, ?_⟩
+    simp only [skipLoop, Bool.false_eq_true, if_false, lookAhead]
+    exact ⟨by omega, by omega⟩
+  | succ f ih =>
+    intro nt ntok h1 _
+    unfold skipLoop
+    by_cases hnt : nt.2 = 1
+    · simp only [hnt, beq_self_eq_true, if_true]
+      refine ⟨0, rfl, rfl, by omega, by omega, ?_⟩
+      simp only [Bool.false_eq_true, if_false, lookAhead]
+      exact ⟨hnt, by omega⟩
+    · have hb : (nt.2 == 1) = false := by simpa using hnt
+      simp only [hb, Bool.false_eq_true, if_false]
+      by_cases ha : (T.act top (scanTok input ntok).2).isSome = true
+      · simp only [ha, if_true]
+        refine ⟨1, rfl, rfl, ?_, by omega, ?_⟩
+        · intro i hi
+          have : i = 0 := by omega
+          subst this
+          exact hnt
+        · exact ⟨by omega, ha⟩
+      · simp only [ha, Bool.false_eq_true, if_false]
+        have ha' : T.act top (scanTok input ntok).2 = none := by simpa using ha
+        obtain ⟨j, e1, e2, e3, e4, e5⟩ := ih (scanTok input ntok) (ntok + 1) (by omega) (by
+          rcases Nat.eq_zero_or_pos f with h0 | h0
+          · right; exact scanTok_snd_of_le (by omega)
+          · left; exact h0)
+        refine ⟨j + 1, ?_, ?_, ?_, ?_, ?_⟩
+        · rw [lookAhead_succ]; exact e1
+        · rw [e2]; omega
+        · intro i hi
+          cases i with
+          | zero => exact hnt
+          | succ i => rw [lookAhead_succ]; exact e3 i (by omega)
+        · intro i h0 hi
+          cases i with
+          | zero => omega
+          | succ i =>
+            rw [lookAhead_succ]
+            cases i with
+            | zero => exact ha'
+            | succ i => exact e4 _ (by omega) (by omega)
+        · rw [lookAhead_succ]
+          split
+          · rename_i hr
+            rw [if_pos hr] at e5
+            exact ⟨by omega, e5.2⟩
+          · rename_i hr
+            rw [if_neg hr] at e5
+            refine ⟨e5.1, fun _ => ?_⟩
+            cases j with
+            | zero => exact ha'
+            | succ j => exact e5.2 (by omega)
+
+/-- skipping: the check of the offending token followed by the skip loop -/
+def skipRes (T : PTables) (input : List Nat) (s : Nat) (tok : Nat × Nat) (ntok : Nat) :
+    Bool × (Nat × Nat) × Nat :=
+  if (T.act s tok.2).isSome then (true, tok, ntok)
+  else skipLoop T input s (input.length + 2) tok ntok
+
+theorem skipRes_spec (T : PTables) (input : List Nat) (s : Nat) (tok : Nat × Nat) (ntok : Nat) :
+    skipRes T input s tok ntok =
+      match firstAcceptable T input s tok ntok with
+      | some (j, t) => (true, t, ntok + j)
+      | none => (false, lookAhead input tok ntok (firstEOF input tok ntok),
+          ntok + firstEOF input tok ntok) := by
+  unfold skipRes
+  by_cases h0 : (T.act s tok.2).isSome = true
+  · have : firstAcceptable T input s tok ntok = some (0, tok) :=
+      firstAcceptable_eq_some_iff.mpr ⟨rfl, h0, by omega⟩
+    simp [this, h0]
+  · have h0' : T.act s (lookAhead input tok ntok 0).2 = none := by simpa [lookAhead] using h0
+    rw [if_neg h0]
+    obtain ⟨j, e1, e2, e3, e4, e5⟩ := skipLoop_spec T input s (input.length + 2) tok ntok
+      (by omega) (.inl (by omega))
+    have hlt : ∀ i, i < j → T.act s (lookAhead input tok ntok i).2 = none := by
+      intro i hi
+      cases i with
+      | zero => exact h0'
+      | succ i => exact e4 _ (by omega) hi
+    rcases hr : skipLoop T input s (input.length + 2) tok ntok with ⟨b, nt', ntok'⟩
+    rw [hr] at e1 e2 e5
+    simp only at e1 e2 e5
+    subst e1 e2
+    cases b with
+    | true =>
+      simp only [if_true] at e5
+      have : firstAcceptable T input s tok ntok = some (j, lookAhead input tok ntok j) :=
+        firstAcceptable_eq_some_iff.mpr ⟨rfl, e5.2, fun i hi => ⟨hlt i hi, e3 i hi⟩⟩
+      simp [this]
+    | false =>
+      simp only [Bool.false_eq_true, if_false] at e5
+      have he := firstEOF_unique e5.1 e3
+      have : firstAcceptable T input s tok ntok = none := by
+        rw [firstAcceptable_eq_none_iff, he]
+        intro i hi
+        rcases Nat.lt_or_eq_of_le hi with hi | rfl
+        · exact hlt i hi
+        · cases i with
+          | zero => exact h0'
+          | succ i => exact e5.2 (by omega)
+      simp [this, he]
+
+/-! ### §3 `recover` -/
+
+theorem recover_none {T : PTables} {e : Nat} {input : List Nat} {ps : PState}
+    (htr : topRecovery T ps.states = none) (hne : ps.states ≠ []) :
+    recover T e input ps = .ok (false, ps.next, ps) := by
+  unfold recover
+  rw [firstRecovery_eq, htr]
+  rcases hst : ps.states with _ | ⟨top, rest⟩
+  · exact absurd hst hne
+  · have := topRecovery_none htr top (by simp [hst])
+    simp only [Option.map_none, this, Bool.not_false, if_true]
+    congr
+    exact hst.symm
+
+theorem recover_some {T : PTables} {e : Nat} {input : List Nat} {ps : PState} {k r : Nat}
+    {rest : List Nat} (htr : topRecovery T ps.states = some k) (hd : ps.states.drop k = r :: rest) :
+    recover T e input ps =
+      match T.act r e with
+      | none => .ok (false, ps.next, { ps with states := r :: rest, attrs := ps.attrs.drop k })
+      | some (.shift s') =>
+        .ok ((skipRes T input s' ps.next ps.ntok).1, ps.next,
+          { ps with states := s' :: r :: rest,
+                    attrs := Attr.err ps.next.1 ps.next.2 (ps.attrs.take k).reverse (T.rowExpected r) ::
+                      ps.attrs.drop k,
+                    next := (skipRes T input s' ps.next ps.ntok).2.1,
+                    ntok := (skipRes T input s' ps.next ps.ntok).2.2 })
+      | some _ => .error "interface conversion: parser.action is not parser.shift" := by
+  obtain ⟨r', rest', hd', hc, -⟩ := topRecovery_some htr
+  rw [hd] at hd'
+  cases hd'
+  unfold recover
+  rw [firstRecovery_eq, htr]
+  simp only [Option.map_some, Nat.add_zero, hd, hc, Bool.not_true, Bool.false_eq_true, if_false]
+  rcases ha : T.act r e with _ | a
+  · rfl
+  · cases a with
+    | shift s' =>
+      simp only [skipRes]
+      split <;> rfl
+    | reduce p => rfl
+    | accept => rfl
+
+/-- (a) the complete characterisation of `Error` -/
+theorem recover_spec {T : PTables} {e : Nat} (hwf : RecWF T e) (input : List Nat) {ps : PState}
+    (hne : ps.states ≠ []) :
+    ∃ b tok ps', recover T e input ps = .ok (b, tok, ps') ∧ RecoverSpec T e input ps b tok ps' := by
+  unfold RecoverSpec
+  rcases htr : topRecovery T ps.states with _ | k
+  · exact ⟨_, _, _, recover_none htr hne, rfl, rfl, rfl, rfl, rfl, rfl, rfl, rfl⟩
+  · obtain ⟨r, rest, hd, hc, -⟩ := topRecovery_some htr
+    obtain ⟨s', hs'⟩ := hwf r hc
+    have hrec := recover_some (e := e) (input := input) htr hd
+    rw [hs'] at hrec
+    simp only at hrec
+    refine ⟨_, _, _, hrec, rfl, rfl, rfl, r, rest, s', hd, hs', by rw [hd], rfl, ?_⟩
+    simp only [skipRes_spec]
+    rcases firstAcceptable T input s' ps.next ps.ntok with _ | ⟨j, t⟩
+    · exact ⟨rfl, rfl, rfl⟩
+    · exact ⟨rfl, rfl, rfl⟩
+
+/-- the specification determines the result -/
+theorem RecoverSpec.unique {T : PTables} {e : Nat} {input : List Nat} {ps : PState}
+    {b1 b2 : Bool} {t1 t2 : Nat × Nat} {p1 p2 : PState}
+    (h1 : RecoverSpec T e input ps b1 t1 p1) (h2 : RecoverSpec T e input ps b2 t2 p2) :
+    b1 = b2 ∧ t1 = t2 ∧ p1 = p2 := by
+  unfold RecoverSpec at h1 h2
+  obtain ⟨a1, a2, a3, a4⟩ := h1
+  obtain ⟨c1, c2, c3, c4⟩ := h2
+  obtain ⟨st1, at1, n1, k1, l1, cl1⟩ := p1
+  obtain ⟨st2, at2, n2, k2, l2, cl2⟩ := p2
+  simp only at a2 a3 a4 c2 c3 c4
+  subst a1 c1 a2 c2 a3 c3
+  rcases htr : topRecovery T ps.states with _ | k
+  · rw [htr] at a4 c4
+    simp only at a4 c4
+    obtain ⟨rfl, rfl, rfl, rfl, rfl⟩ := a4
+    obtain ⟨rfl, rfl, rfl, rfl, rfl⟩ := c4
+    exact ⟨rfl, rfl, rfl⟩
+  · rw [htr] at a4 c4
+    simp only at a4 c4
+    obtain ⟨r1, rest1, s1, d1, x1, rfl, rfl, y1⟩ := a4
+    obtain ⟨r2, rest2, s2, d2, x2, rfl, rfl, y2⟩ := c4
+    rw [d1] at d2
+    cases d2
+    rw [x1] at x2
+    cases x2
+    rcases hf : firstAcceptable T input s1 ps.next ps.ntok with _ | ⟨j, t⟩
+    · rw [hf] at y1 y2
+      simp only at y1 y2
+      obtain ⟨rfl, rfl, rfl⟩ := y1
+      obtain ⟨rfl, rfl, rfl⟩ := y2
+      exact ⟨rfl, rfl, rfl⟩
+    · rw [hf] at y1 y2
+      simp only at y1 y2
+      obtain ⟨rfl, rfl, rfl⟩ := y1
+      obtain ⟨rfl, rfl, rfl⟩ := y2
+      exact ⟨rfl, rfl, rfl⟩
+
+theorem recover_nil {T : PTables} {e : Nat} {input : List Nat} {ps : PState} (h : ps.states = []) :
+    recover T e input ps = .error "empty stack" := by
+  unfold recover
+  rw [h]
+  rfl
+
+/-- `Error` reports "recovered" only after popping to a recovery state, shifting `error` and
+    finding a token that has an action in the new state (no hypothesis on the tables) -/
+theorem recover_true {T : PTables} {e : Nat} {input : List Nat} {ps ps' : PState} {tok : Nat × Nat}
+    (h : recover T e input ps = .ok (true, tok, ps')) :
+    ∃ k r rest s' j, topRecovery T ps.states = some k ∧ ps.states.drop k = r :: rest ∧
+      T.act r e = some (.shift s') ∧ ps'.states = s' :: r :: rest ∧
+      ps'.attrs = Attr.err ps.next.1 ps.next.2 (ps.attrs.take k).reverse (T.rowExpected r) ::
+        ps.attrs.drop k ∧
+      ps'.next = lookAhead input ps.next ps.ntok j ∧ ps'.ntok = ps.ntok + j ∧
+      (T.act s' ps'.next.2).isSome = true ∧
+      (∀ i, i < j → T.act s' (lookAhead input ps.next ps.ntok i).2 = none ∧
+        (lookAhead input ps.next ps.ntok i).2 ≠ 1) ∧
+      ps'.log = ps.log ∧ ps'.calls = ps.calls := by
+  by_cases hne : ps.states = []
+  · rw [recover_nil hne] at h; cases h
+  rcases htr : topRecovery T ps.states with _ | k
+  · rw [recover_none htr hne] at h; cases h
+  · obtain ⟨r, rest, hd, hc, -⟩ := topRecovery_some htr
+    rw [recover_some htr hd] at h
+    rcases ha : T.act r e with _ | a
+    · rw [ha] at h; cases h
+    · rw [ha] at h
+      cases a with
+      | reduce p => cases h
+      | accept => cases h
+      | shift s' =>
+        simp only [skipRes_spec, Except.ok.injEq, Prod.mk.injEq] at h
+        obtain ⟨h1, -, rfl⟩ := h
+        rcases hf : firstAcceptable T input s' ps.next ps.ntok with _ | ⟨j, t⟩
+        · rw [hf] at h1; cases h1
+        · obtain ⟨rfl, f2, f3⟩ := firstAcceptable_eq_some_iff.mp hf
+          exact ⟨k, r, rest, s', j, rfl, hd, rfl, rfl, rfl, rfl, rfl, f2, f3, rfl, rfl⟩
+
+/-! ### §4 panics -/
+
+def ifaceShift : String := "interface conversion: parser.action is not parser.shift"
+
+/-- the run-time errors of the loop outside error recovery -/
+def stepPanics : List String :=
+  ["empty stack", "index out of range (token type)", "slice bounds out of range",
+   "index out of range", "index out of range [-1]", "interface conversion: not *token.Token",
+   "unknown shape"]
+
+theorem recover_error {T : PTables} {e : Nat} {input : List Nat} {ps : PState} {why : String}
+    (h : recover T e input ps = .error why) :
+    why = "empty stack" ∨ (why = ifaceShift ∧ ¬ RecWF T e) := by
+  by_cases hne : ps.states = []
+  · rw [recover_nil hne] at h; cases h; exact .inl rfl
+  rcases htr : topRecovery T ps.states with _ | k
+  · rw [recover_none htr hne] at h; cases h
+  · obtain ⟨r, rest, hd, hc, -⟩ := topRecovery_some htr
+    rw [recover_some htr hd] at h
+    have hnw : ∀ a, T.act r e = some a → (∀ s', a ≠ .shift s') → ¬ RecWF T e := by
+      intro a ha hns hwf
+      obtain ⟨s', hs'⟩ := hwf r hc
+      rw [ha] at hs'
+      cases hs'
+      exact hns _ rfl
+    rcases ha : T.act r e with _ | a
+    · rw [ha] at h; cases h
+    · rw [ha] at h
+      cases a with
+      | shift s' => cases h
+      | reduce p => cases h; exact .inr ⟨rfl, hnw _ ha (by intro _ h; cases h)⟩
+      | accept => cases h; exact .inr ⟨rfl, hnw _ ha (by intro _ h; cases h)⟩
+
+/-- a successful lookup: either the action exists, or recovery succeeded and found one -/
+theorem lookupAct_ok {T : PTables} {e : Nat} {w : List Nat} {ps ps1 : PState} {top : Nat} {a : Act}
+    (h : lookupAct T e w ps top = .ok (a, ps1)) :
+    (ps1 = ps ∧ T.act top ps.next.2 = some a) ∨
+    (T.act top ps.next.2 = none ∧ ∃ tok t' rest', recover T e w ps = .ok (true, tok, ps1) ∧
+      ps1.states = t' :: rest' ∧ T.act t' ps1.next.2 = some a) := by
+  unfold lookupAct at h
+  rcases hact : T.act top ps.next.2 with _ | a'
+  · rw [hact] at h
+    simp only at h
+    rcases hrec : recover T e w ps with why | ⟨_ | _, tok, ps'⟩
+    · rw [hrec] at h; cases h
+    · rw [hrec] at h; simp only at h; split at h <;> cases h
+    · rw [hrec] at h
+      simp only at h
+      rcases hst : ps'.states with _ | ⟨t', rest'⟩
+      · rw [hst] at h; cases h
+      · rw [hst] at h
+        simp only at h
+        rcases ha : T.act t' ps'.next.2 with _ | a2
+        · rw [ha] at h; cases h
+        · rw [ha] at h; cases h; exact .inr ⟨rfl, tok, t', rest', rfl, hst, ha⟩
+  · rw [hact] at h; cases h; exact .inl ⟨rfl, rfl⟩
+
+theorem lookupAct_panic {T : PTables} {e : Nat} {w : List Nat} {ps ps' : PState} {top : Nat}
+    {why : String} (h : lookupAct T e w ps top = .error (.panic why, ps')) :
+    why = "empty stack" ∨ (why = ifaceShift ∧ ¬ RecWF T e) := by
+  unfold lookupAct at h
+  rcases hact : T.act top ps.next.2 with _ | a'
+  · rw [hact] at h
+    simp only at h
+    rcases hrec : recover T e w ps with why' | ⟨_ | _, tok, ps1⟩
+    · rw [hrec] at h; cases h; exact recover_error hrec
+    · rw [hrec] at h
+      simp only at h
+      split at h
+      · cases h
+      · cases h; exact .inl rfl
+    · rw [hrec] at h
+      simp only at h
+      obtain ⟨k, r, rest, s', j, -, -, -, hst, -, -, -, hsome, -⟩ := recover_true hrec
+      rw [hst] at h
+      simp only at h
+      rcases ha : T.act s' ps1.next.2 with _ | a2
+      · rw [ha] at hsome; cases hsome
+      · rw [ha] at h; cases h
+  · rw [hact] at h; cases h
+
+theorem userAction_error {shape id : Nat} {X : List Attr} {why : String}
+    (h : userAction shape id X = .error why) : why ∈ stepPanics := by
+  unfold userAction at h
+  repeat' split at h
+  all_goals first
+    | cases h
+    | (cases h; simp [stepPanics])
+
+theorem reduceRes_error {cfg : PCfg} {p : Nat} {X : List Attr} {ps : PState} {why : String}
+    (h : reduceRes cfg p X ps = .error (some why)) : why ∈ stepPanics := by
+  unfold reduceRes at h
+  split at h
+  · split at h
+    · cases h
+    · cases h; simp [stepPanics]
+  · cases h
+  · simp only at h
+    split at h
+    · cases h
+    · rcases hu : userAction _ _ X with why' | b
+      · rw [hu] at h; cases h; exact userAction_error hu
+      · rw [hu] at h; cases h
+
+theorem doAct_panic {cfg : PCfg} {w : List Nat} {a : Act} {ps ps' : PState} {why : String}
+    (h : doAct cfg w a ps = .done (.panic why) ps') : why ∈ stepPanics := by
+  cases a with
+  | accept =>
+    simp only [doAct] at h
+    split at h
+    · cases h
+    · cases h; simp [stepPanics]
+  | shift s => cases h
+  | reduce p =>
+    simp only [doAct] at h
+    split at h
+    · cases h; simp [stepPanics]
+    · rcases hres : reduceRes cfg p (List.take (cfg.T.prodLen[p]?.getD 0) ps.attrs).reverse ps with
+        (_ | why') | ⟨b, ps2⟩
+      · rw [hres] at h
+        simp only at h
+        split at h
+        · cases h
+        · cases h; simp [stepPanics]
+      · rw [hres] at h; cases h; exact reduceRes_error hres
+      · rw [hres] at h
+        simp only at h
+        split at h
+        · split at h
+          · cases h; simp [stepPanics]
+          · cases h
+        · cases h; simp [stepPanics]
+
+/-- every panic of one iteration is one of `stepPanics`, or the failed `action.(shift)`
+    assertion in `Error`, which needs tables violating `RecWF` -/
+theorem step_panic {cfg : PCfg} {w : List Nat} {ps ps' : PState} {why : String}
+    (h : step cfg w ps = .done (.panic why) ps') :
+    why ∈ stepPanics ∨ (why = ifaceShift ∧ ¬ RecWF cfg.T cfg.errTerm) := by
+  unfold step at h
+  split at h
+  · cases h; simp [stepPanics]
+  · split at h
+    · cases h; simp [stepPanics]
+    · rename_i top _ _
+      rcases hl : lookupAct cfg.T cfg.errTerm w ps top with ⟨o, ps1⟩ | ⟨a, ps1⟩
+      · rw [hl] at h
+        cases h
+        rcases lookupAct_panic hl with rfl | h2
+        · simp [stepPanics]
+        · exact .inr h2
+      · rw [hl] at h
+        exact .inl (doAct_panic h)
+
+theorem parseLoop_panic (cfg : PCfg) (w : List Nat) : ∀ (fuel : Nat) (ps : PState) (why : String),
+    (parseLoop cfg w fuel ps).1 = .panic why →
+    why ∈ stepPanics ∨ (why = ifaceShift ∧ ¬ RecWF cfg.T cfg.errTerm) := by
+  intro fuel
+  induction fuel with
+  | zero => intro ps why h; cases h
+  | succ fuel ih =>
+    intro ps why h
+    rw [parseLoop_succ] at h
+    rcases hs : step cfg w ps with ⟨o, ps1⟩ | ps1
+    · rw [hs] at h
+      simp only [StepR.run] at h
+      subst h
+      exact step_panic hs
+    · rw [hs] at h
+      exact ih ps1 why h
 
 end Gocc
